@@ -120,6 +120,10 @@ class HW(ls.World):
     def reset_session(self, tag):
         """Close the helper's socket: Squid sees EOF, drops the session and starts a new helper (channel IDs restart at 1)."""
         old, oldpid = self.sess[tag], self.pids[tag]
+        # Squid calls a helper that exits within 30 s of its start without having answered anything "crashing too
+        # rapidly" (fatal); virtual time stands still otherwise, so let that much time pass first
+        self.sq.now_us += 31 * 1000000
+        self.sq.kick()
         try:
             old.s.shutdown(socket.SHUT_RDWR)
         except OSError:
